@@ -7,7 +7,7 @@ echo "|---|---|---|---|" >> $out.tmp
 for d in $(ls -d seeded/C*_* | sort); do
   id=$(basename $d); prop=${id%%_*}
   if ! grep -qw $prop tools/claimed.txt; then echo "| $id | $prop | (check not claimed yet) | |" >> $out.tmp; continue; fi
-  res=$(tools/run_seed.sh $id $prop quick 2>&1 | head -1)
+  res=$(tools/run_seed.sh $id $prop quick 2>&1 | grep '^seed ' | head -1)
   rc=$(echo "$res" | sed -n 's/.*rc=\([0-9]*\).*/\1/p')
   what=$(grep -m1 "^  " /tmp/runseed_${id}.err | cut -c1-160 | tr '|' '/')
   if [ "$rc" = "1" ]; then st="caught (exit 1)"; else st="MISSED (exit $rc)"; fi
